@@ -137,6 +137,16 @@ func c12R14(c *Ctx, r *Report) {
 			k, isS = constant.StringVal(cst.Value), true
 		}
 		if !isS {
+			// the empty spelling may be tested as len(s) == 0
+			for _, o := range [][2]ssa.Value{{bo.X, bo.Y}, {bo.Y, bo.X}} {
+				if call, ok := o[0].(*ssa.Call); ok && calleeName(&call.Call) == "builtin.len" {
+					if v, isC := constInt(o[1]); isC && v == 0 {
+						k, isS = "", true
+					}
+				}
+			}
+		}
+		if !isS {
 			return
 		}
 		// follow the true edge to the return it leads to
